@@ -383,6 +383,12 @@ def eval_const(fn, op, depth=0):
     l = pl[0]
     proj = pl[1]
     d = single_def(fn, l)
+    if d is not None and d[0] == "call" and not proj:
+        # lossless conversions of constants: T::from(const)
+        k = d[2].get("f") or ""
+        if (k.endswith(">::from") and "convert::From<" in k or k.endswith("NonZero::<T>::get")) and len(d[2]["args"]) == 1:
+            return eval_const(fn, d[2]["args"][0], depth + 1)
+        return None
     if d is None or d[0] != "=":
         return None
     rv = d[3]
